@@ -95,6 +95,13 @@ def run(c):
                 pre = "-"
                 if hist:
                     pre = ",".join("%d:%d:%d:%d" % (rng.rng(1, 30), rng.rng(3, 20), 3, rng.rng(1, P - 1)) for _ in range(hist))
+                    if rng.chance(1, 2):
+                        # the session just before the target is a near twin: equal in all parameters but one (seed C05h: a cache of the last
+                        # matrix keyed on (n-k, n, seed) without N1)
+                        tw = rng.below(3)
+                        n1b = rng.choice([x for x in range(3, min(r, 14) + 1) if x != n1] or [n1])
+                        twin = (k, r, n1b, s) if tw == 0 else (k, r, n1, rng.rng(1, P - 1)) if tw == 1 else (max(1, k + rng.choice([-1, 1])), r, n1, s)
+                        pre = ",".join(pre.split(",")[:-1] + ["%d:%d:%d:%d" % twin])
                 reqs.append("Q %d %d %d %d %d %s" % (k, r, n1, s, role, pre)); meta.append((k, r, n1, s, role, hist))
     exe = vlib.build_c(c.snap, "drv_pchk", "drv_pchk.c")
     ans, crashes = vlib.run_driver(exe, reqs, prefix="R")
